@@ -214,7 +214,13 @@ def _build(kind, start, hist):
     from chempy import Equilibrium
 
     params = _mk_params(kind)
-    base = [Equilibrium(r, p, params[i]) for i, (r, p) in enumerate(BASE)]
+    if kind == "symbolic":
+        # the sides given as caller-ordered mappings whose key order is NOT the sorted one (they are kept as given)
+        from collections import OrderedDict
+
+        base = [Equilibrium(OrderedDict(sorted(r.items(), reverse=True)), OrderedDict(sorted(p.items(), reverse=True)), params[i]) for i, (r, p) in enumerate(BASE)]
+    else:
+        base = [Equilibrium(r, p, params[i]) for i, (r, p) in enumerate(BASE)]
     obj, m = base[start], _start_state(kind, start)
     for op in hist:
         obj = _apply(obj, op, base)
